@@ -182,24 +182,48 @@ def _is_container(el):
     return isinstance(el, Container) and not isinstance(el, Scalar)
 
 
+LAST_RAISE = {}
+
+
+def is_huge(v):
+    return isinstance(v, int) and not isinstance(v, bool) and abs(v) >= 10 ** S.MAXD
+
+
+def diagnose(e):
+    """Message of an exception that left set(), and whether the innermost Scalar.set() frame it
+    passed through was holding an int beyond CPython's int->str limit (its `obj`: the input, or the
+    adapted value)."""
+    from flatland.schema.scalars import Scalar
+    culprit = None
+    tb = e.__traceback__
+    while tb is not None:
+        fr = tb.tb_frame
+        if fr.f_code.co_name == "set" and isinstance(fr.f_locals.get("self"), Scalar) and "obj" in fr.f_locals:
+            culprit = fr.f_locals["obj"]
+        tb = tb.tb_next
+    return {"message": str(e)[:60], "culprit_huge": is_huge(culprit)}
+
+
 def observe_set(el, x):
     from flatland.signals import element_set
     rec = _Recorder()
+    LAST_RAISE.clear()
     with element_set.connected_to(rec):
         try:
             flag = el.set(x)
             exc = None
         except Exception as e:  # noqa: BLE001 - class name is the observation
             flag, exc = None, type(e).__name__
+            LAST_RAISE.update(diagnose(e))
     return flag, exc, rec.events
 
 
 def scalar_obs(el, x):
     flag, exc, events = observe_set(el, x)
     if exc:
-        return {"exc": exc, "flag": None, "value": None, "u": None, "signals": None}, events
+        return {"exc": exc, "flag": None, "value": None, "u": None, "raw": None, "signals": None}, events
     own = [adapted for sender, adapted, _, _ in events if sender is el]
-    return {"exc": None, "flag": flag, "value": S.out_nat(el.value), "u": S.cps(el.u), "signals": own,
+    return {"exc": None, "flag": flag, "value": S.out_nat(el.value), "u": S.cps(el.u), "raw": S.out_nat(el.raw), "signals": own,
             "_foreign_signals": sum(1 for e in events if e[0] is not el)}, events
 
 
@@ -223,6 +247,49 @@ def bool_incoherent(kind, x=None):
             elif ("" == k["false"] or "" in k["fsyn"]) and k["false"] != "":
                 return True
     return False
+
+
+BOOL_DEFAULT = {"k": "boolean", "true": "1", "false": "", "tsyn": ["on", "true", "True", "1"],
+                "fsyn": ["off", "false", "False", "0", ""]}
+
+
+def sim_set_text(kind, text):
+    """(flag, value, u) that String / Boolean kinds (and Enum/Constrained over them) give for
+    set(text), computed from the kind description alone; None for other kinds."""
+    k = kind["k"]
+    if k == "boolean_default":
+        return sim_set_text(BOOL_DEFAULT, text)
+    if k == "string":
+        v = text.strip() if kind["strip"] else text
+        return True, v, v
+    if k == "boolean":
+        if text == kind["true"] or text in kind["tsyn"]:
+            return True, True, kind["true"]
+        if text == kind["false"] or text in kind["fsyn"]:
+            return True, False, kind["false"]
+        return False, None, text
+    if k == "constrained":
+        r = sim_set_text(kind["child"], text)
+        if r is None or not r[0]:
+            return r
+        valid = kind["valid"]
+        ok = {"never": False, "always": True}.get(valid["v"])
+        if ok is None:
+            ok = r[1] in tuple(S.nat_to_py(v) for v in valid["vals"])
+        return r if ok else (False, None, text)
+    return None
+
+
+def truncated_temporal(kind, x):
+    """KF-C04-b: the value the text form of an inexact native temporal input reads back as."""
+    bk = S.base_kind(kind)["k"]
+    if bk == "date" and isinstance(x, datetime.datetime):
+        return datetime.date(x.year, x.month, x.day)
+    if bk == "time" and isinstance(x, datetime.time) and x.microsecond:
+        return x.replace(microsecond=0)
+    if bk == "datetime" and isinstance(x, datetime.datetime) and x.microsecond:
+        return x.replace(microsecond=0)
+    return None
 
 
 def inexact_temporal(kind, x):
@@ -431,6 +498,25 @@ def shape_ok(sch, inp):
     return True
 
 
+def expects_keyerror(sch, inp):
+    """Does some Dict with the subset policy receive, in a set() that is actually reached, a key that
+    is not one of its fields?  (Mirrors the documented policy, not the code.)"""
+    t = sch["s"]
+    if t == "seq":
+        if inp["i"] == "list":
+            return any(expects_keyerror(sch["member"], x) for x in inp["v"])
+        return False
+    if t != "dict":
+        return False
+    pairs = _pairs_of(inp)
+    if pairs is None or pairs == "unmodelled":
+        return False
+    fields = dict((n, f) for n, f in sch["fields"])
+    if sch["policy"] == "subset" and any(not (isinstance(k, str) and k in fields) for k, _ in pairs):
+        return True
+    return any(isinstance(k, str) and k in fields and expects_keyerror(fields[k], v) for k, v in pairs)
+
+
 def tree_case(sch, x, pre=None):
     return {"mode": "tree", "schema": sch, "x": x, "pre": pre, "conv": tree_conv(sch, [x, pre])}
 
@@ -455,12 +541,14 @@ def run_tree(case):
             except Exception as e:  # noqa: BLE001
                 snap = {"raised": type(e).__name__}
         events.append((sender, adapted, snap))
+    LAST_RAISE.clear()
     with element_set.connected_to(receiver):
         try:
             flag = el.set(input_to_py(case["x"]))
             exc = None
         except Exception as e:  # noqa: BLE001
             flag, exc = None, type(e).__name__
+            LAST_RAISE.update(diagnose(e))
     return el, flag, exc, events
 
 
@@ -578,6 +666,7 @@ class C04(Property):
         "Flatland.C04.Proofs.reset_value_partial",
         "Flatland.C04.Proofs.C04_reset_u_fails",
         "Flatland.C04.Proofs.C04_reset_value_fails",
+        "Flatland.C04.Proofs.C04_reset_none_fails",
         "Flatland.C04.Proofs.signals_spec",
         "Flatland.C04.Proofs.seq_flag",
         "Flatland.C04.Proofs.dict_flag",
@@ -585,11 +674,15 @@ class C04(Property):
     ]
     generated_obligations = ["Flatland.C04.Proofs.pyTables_ok"]
     level_text = "proof"
-    level_note = ("set_coherent (flag/value/u/signal) and signals_spec are full for every kind incl. opaque Float/Decimal; set_total is partial "
-                  "(NoHuge; refuted in full by KF-C04-a); reset_text / reset_value / norm_idem cover String, Integer/Long (any width), Boolean, "
-                  "Date, Time, DateTime and Enum/Constrained over them, partial in Coherent / CoherentNone / ExactInput (refuted in full by "
-                  "KF-C04-c / KF-C04-b); for Float and Decimal 'never raises' is by correspondence, and 'u stable under re-set' is the theorem reset_text_all_partial whose "
-                  "hypothesis OpaqueStable (the recorded float()/Decimal() results are text-stable) is evaluated by the model on every case")
+    level_note = ("BY CONSTRUCTION OF THE MODEL (case split over a model written branch by branch like the code; the refinement is the "
+                  "correspondence): set_coherent / set_flag / set_success / set_failure / set_signals, signals_spec, seq_flag / dict_flag / "
+                  "joined_flag. PROVED with content about the re-implemented CPython primitives (strip, int(), %0Ni, the Temporal recognisers, "
+                  "date/time validity): set_total_partial (NoHuge; refuted in full by C04_total_fails = KF-C04-a), set_total_text, "
+                  "reset_text_partial / reset_value_partial / norm_idem for String, Integer/Long (any width), Boolean, Date, Time, DateTime and "
+                  "Enum/Constrained over them (hypotheses Coherent, CoherentNone, WidthOK, ExactInput, value != None; refuted in full by "
+                  "C04_reset_u_fails = KF-C04-c, C04_reset_value_fails = KF-C04-b, C04_reset_none_fails = KF-C04-d). Float/Decimal: 'never "
+                  "raises' is by correspondence; 'u stable under re-set' is reset_text_all_partial under OpaqueStable, evaluated by the model on "
+                  "the recorded float()/Decimal() results of every case")
     technique = "Lean 4 theorems about a hand-written model + regenerated Unicode/limit tables + differential correspondence + Python oracle"
     trusted_base = [
         "CPython str.strip, int(str), '%i'/'%0Ni', str(obj), re (three Temporal regexes), datetime.date/time validity are re-implemented "
@@ -601,8 +694,11 @@ class C04(Property):
     ]
     assumptions = [
         "inputs are None, str, int, bool, float, Decimal, naive date/time/datetime, or an object with only str() and bool(); "
-        "bytes, tz-aware times, subclasses with overridden dunder methods are outside the model",
-        "a None value has text '' by documentation, so 'same .value after re-setting .u' is claimed for values other than None",
+        "bytes are outside the property's quantifier (None/text/number/boolean/native-temporal) and NOT claimed: on HEAD Date().set(b'2020-01-02') "
+        "and JoinedString().set(b'a,b') raise TypeError and Integer().set(b' 12 ') gives 12; no case contains bytes (a value that is not one of the "
+        "listed natives makes has_model False); tz-aware times and subclasses with overridden dunder methods are outside the model too",
+        "a None value has text '' by documentation; the literal value clause for None is checked and fails for the kinds that adapt '' "
+        "(recorded as KF-C04-d), the theorem reset_value_partial is for values other than None",
         "Enum/Constrained valid_values contain None/str/int/bool/date/time natives (Python == on them)",
     ]
     rule = ("70% scalar cases: one of 47 kind configurations (String strip on/off; Integer/Long signed/unsigned, custom %04i/%02i widths; "
@@ -719,6 +815,8 @@ class C04(Property):
     # ------------------------------------------------------------ implementation runner
 
     def has_model(self, case):
+        if '"unmodelled"' in __import__("json").dumps(case):      # bytes or any other value outside the native universe
+            return False
         if case["mode"] != "tree":
             return True
         return shape_ok(case["schema"], case["x"]) and (case.get("pre") is None or shape_ok(case["schema"], case["pre"]))
@@ -763,8 +861,10 @@ class C04(Property):
         x = S.nat_to_py(case["x"])
         flag, exc, events = observe_set(el, x)
         if exc:
-            fails.append({"clause": "set-raises", "expected": None, "observed": exc})
+            fails.append(dict({"clause": "set-raises", "expected": None, "observed": exc}, **LAST_RAISE))
             return fails
+        if el.raw is not x:
+            fails.append({"clause": "raw-is-input", "expected": _show(x), "observed": _show(el.raw)})
         # returned flag <=> the input was adapted
         probe = cls()
         try:
@@ -804,9 +904,11 @@ class C04(Property):
                 fails.append({"clause": "reset-raises", "expected": None, "observed": exc2})
             else:
                 if el2.u != el.u:
-                    fails.append({"clause": "reset-u", "expected": el.u, "observed": el2.u})
-                if exact_kind(kind) and el.value is not None and not _same(el2.value, el.value):
-                    fails.append({"clause": "reset-value", "expected": _show(el.value), "observed": _show(el2.value)})
+                    fails.append({"clause": "reset-u", "expected": el.u, "observed": el2.u, "first_value": _show(el.value)})
+                if exact_kind(kind) and not _same(el2.value, el.value):
+                    # the statement makes no exception for None: its text '' may read back as a value
+                    fails.append({"clause": "reset-value" if el.value is not None else "reset-value-none",
+                                  "expected": _show(el.value), "observed": _show(el2.value), "first_u": el.u})
         return fails
 
     def tree_oracle(self, case):
@@ -814,10 +916,13 @@ class C04(Property):
         sch = case["schema"]
         el, flag, exc, events = run_tree(case)
         if exc:
-            # a Dict may refuse keys by design (KeyError from its policy); anything else is a set() raising
-            if exc != "KeyError":
-                fails.append({"clause": "set-raises", "expected": None, "observed": exc})
+            # a Dict refuses keys outside its schema by design (KeyError from its subset policy), and only
+            # then; anything else is a set() raising
+            if exc != "KeyError" or not expects_keyerror(sch, case["x"]):
+                fails.append(dict({"clause": "set-raises", "expected": None, "observed": exc}, **LAST_RAISE))
             return fails
+        if expects_keyerror(sch, case["x"]) and shape_ok(sch, case["x"]):
+            fails.append({"clause": "policy-keyerror", "expected": "KeyError", "observed": None})
         paths = {}
         index_tree(el, sch, [], paths)
         own = [i for i, e in enumerate(events) if e[0] is el]
@@ -839,17 +944,38 @@ class C04(Property):
         return fails
 
     def classify(self, case, failure):
+        """A failure is filed under a recorded finding only when the observation is what that finding
+        predicts for this input."""
         clause = failure.get("clause")
-        if clause == "set-raises" and failure.get("observed") == "ValueError" and has_huge_int(case):
-            return "KF-C04-a"
+        if clause == "set-raises":
+            # KF-C04-a: CPython's int->str limit, raised while the innermost Scalar.set() was holding
+            # the over-long int (as its input or as the value it adapted)
+            if (failure.get("observed") == "ValueError" and "Exceeds the limit" in failure.get("message", "")
+                    and failure.get("culprit_huge")):
+                return "KF-C04-a"
+            return None
         if case["mode"] == "tree":
             return None
         kind = case["kind"]
         x = S.nat_to_py(case["x"])
-        if clause == "reset-value" and inexact_temporal(kind, x):
-            return "KF-C04-b"
-        if clause in ("reset-u", "reset-value") and bool_incoherent(kind, x):
-            return "KF-C04-c"
+        if clause == "reset-value":
+            want = truncated_temporal(kind, x)
+            if want is not None and failure.get("observed") == _show(want):
+                return "KF-C04-b"
+        if clause in ("reset-u", "reset-value", "reset-value-none"):
+            # the text of the first outcome, read back by the kind description
+            first_u = failure.get("first_u") if clause != "reset-u" else failure.get("expected")
+            sim = sim_set_text(kind, first_u) if isinstance(first_u, str) else None
+            if sim is not None and sim[0]:
+                observed = failure.get("observed")
+                predicted = sim[2] if clause == "reset-u" else _show(sim[1])
+                if observed == predicted:
+                    if clause == "reset-value-none":
+                        # KF-C04-d: the input was None, whose text '' this kind adapts to a value
+                        if x is None and first_u == "":
+                            return "KF-C04-d"
+                    elif bool_incoherent(kind, x):
+                        return "KF-C04-c"
         return None
 
     # ------------------------------------------------------------ coverage, shrinking
